@@ -174,11 +174,12 @@ impl Ik {
             settle_quote: v["settle_quote"].as_bool().unwrap_or(true),
         }
     }
-    fn coq_meta(&self, restores: &[bool], rt_ok: bool) -> String {
+    fn coq_meta(&self, restores: &[bool], rt_ok: bool, rejected_at: &[usize], rej_ok: bool) -> String {
+        let rej: Vec<String> = rejected_at.iter().map(|k| n(*k as u128 + 1)).collect();
         let size = if self.kind == 0 { Decimal::ONE } else { self.size };
         let idx: Vec<String> =
             restores.iter().enumerate().filter(|(_, r)| **r).map(|(k, _)| n(k as u128 + 1)).collect();
-        format!("(mkMeta {} {} {} {})", n(self.kind.min(3) as u128), dec_q(size), list(&idx), b(rt_ok))
+        format!("(mkMeta {} {} {} {} {} {})", n(self.kind.min(3) as u128), dec_q(size), list(&idx), b(rt_ok), list(&rej), b(rej_ok))
     }
     fn tag(&self) -> String {
         format!(
@@ -224,6 +225,32 @@ fn new_instrument_state(
         Orders::default(),
         DefaultInstrumentMarketData::default(),
     )
+}
+
+fn name_trade(t: &Trade<QuoteAsset, InstrumentIndex>, inst: u64) -> Trade<QuoteAsset, InstrumentNameInternal> {
+    Trade {
+        id: t.id.clone(),
+        order_id: t.order_id.clone(),
+        instrument: InstrumentNameInternal::new(format!("instrument_{}", inst)),
+        strategy: t.strategy.clone(),
+        time_exchange: t.time_exchange,
+        side: t.side,
+        price: t.price,
+        quantity: t.quantity,
+        fees: t.fees.clone(),
+    }
+}
+
+/// a fill for another instrument (index + 7): kind 1 same side, kind 2 the size that would close
+/// the open position exactly, kind 3 a size that would flip it
+fn foreign_fill(f: &F, open: &Position<QuoteAsset, InstrumentIndex>, kind: u64) -> F {
+    let long = open.side == Side::Buy;
+    let (buy, qty) = match kind {
+        1 => (long, f.qty),
+        2 => (!long, open.quantity_abs),
+        _ => (!long, open.quantity_abs + f.qty),
+    };
+    F { id: 900_000 + f.id, inst: f.inst + 7, time: f.time + 1, buy, price: f.price, qty, fee: f.fee }
 }
 
 /// persist / restore: serialise to JSON and read back. Returns the restored value (the original
@@ -314,9 +341,12 @@ fn classify(
     )
 }
 
-fn run_case(fills: &[F], ik: Ik, restores: &[bool]) -> (String, Vec<String>) {
+fn run_case(fills: &[F], ik: Ik, restores: &[bool], rejects: &[u64]) -> (String, Vec<String>) {
     let mut tags = vec![ik.tag()];
     let mut rt_ok = true;
+    let mut rej_ok = true;
+    let mut rejected_at: Vec<usize> = vec![];
+    let reject_kind = |k: usize| rejects.get(k).copied().unwrap_or(0);
     let restore_at = |k: usize| restores.get(k).copied().unwrap_or(false);
     // path 1: PositionManager directly; a panic ends the observation list early
     let mut pm: PositionManager<InstrumentIndex> = PositionManager::default();
@@ -342,17 +372,7 @@ fn run_case(fills: &[F], ik: Ik, restores: &[bool]) -> (String, Vec<String>) {
                     opt(x.as_ref().map(coq_exit))
                 ));
                 let t = f.trade();
-                let tn = Trade {
-                    id: t.id.clone(),
-                    order_id: t.order_id.clone(),
-                    instrument: InstrumentNameInternal::new(format!("instrument_{}", f.inst)),
-                    strategy: t.strategy.clone(),
-                    time_exchange: t.time_exchange,
-                    side: t.side,
-                    price: t.price,
-                    quantity: t.quantity,
-                    fees: t.fees.clone(),
-                };
+                let tn = name_trade(&t, f.inst);
                 let xn = pm_name.update_from_trade(&tn);
                 agrees &= same_exit(&x, &xn) && same_position(&pm.current, &pm_name.current);
                 if restore_at(k) {
@@ -362,6 +382,37 @@ fn run_case(fills: &[F], ik: Ik, restores: &[bool]) -> (String, Vec<String>) {
                     let (r2, ok2) = round_trip(&pm_name);
                     pm_name = r2;
                     rt_ok &= ok1 && ok2;
+                }
+                // rejected input: a fill for ANOTHER instrument while a position is open must
+                // return no closed record and leave the whole manager as it was
+                if reject_kind(k) > 0 {
+                    if let Some(open) = pm.current.clone() {
+                        let foreign = foreign_fill(f, &open, reject_kind(k));
+                        let tf = foreign.trade();
+                        let before_idx = pm.clone();
+                        let before_name = pm_name.clone();
+                        let mut tfn = name_trade(&tf, foreign.inst);
+                        tfn.instrument = InstrumentNameInternal::new(format!("instrument_{}", foreign.inst));
+                        let mut pma = pm.clone();
+                        let mut pmb = pm_name.clone();
+                        let r = catch(move || {
+                            let xa = pma.update_from_trade(&tf);
+                            let xb = pmb.update_from_trade(&tfn);
+                            (pma, pmb, xa.is_none() && xb.is_none())
+                        });
+                        match r {
+                            Ok((pma, pmb, none)) => {
+                                rej_ok &= none && pma == before_idx && pmb == before_name;
+                                pm = pma;
+                                pm_name = pmb;
+                            }
+                            Err(_) => rej_ok = false,
+                        }
+                        rejected_at.push(k);
+                        tags.push(format!("foreign_fill_kind{}_while_open", reject_kind(k)));
+                    } else {
+                        tags.push("foreign_fill_skipped_flat".to_string());
+                    }
                 }
             }
             Err(_) => {
@@ -395,6 +446,23 @@ fn run_case(fills: &[F], ik: Ik, restores: &[bool]) -> (String, Vec<String>) {
                     st = r;
                     rt_ok &= ok;
                 }
+                if rejected_at.contains(&k) {
+                    if let Some(open) = st.position.current.clone() {
+                        let tf = foreign_fill(f, &open, reject_kind(k)).trade();
+                        let before = st.clone();
+                        let mut st3 = st.clone();
+                        match catch(move || {
+                            let x = st3.update_from_trade(&tf);
+                            (st3, x.is_none())
+                        }) {
+                            Ok((st3, none)) => {
+                                rej_ok &= none && st3 == before;
+                                st = st3;
+                            }
+                            Err(_) => rej_ok = false,
+                        }
+                    }
+                }
             }
             Err(_) => {
                 tags.push("tear_sheet_statistics_panicked".to_string());
@@ -418,26 +486,30 @@ fn run_case(fills: &[F], ik: Ik, restores: &[bool]) -> (String, Vec<String>) {
         list(&obs),
         b(agrees),
         ts,
-        ik.coq_meta(restores, rt_ok)
+        ik.coq_meta(restores, rt_ok, &rejected_at, rej_ok)
     );
+    if !rej_ok {
+        tags.push("foreign_fill_not_rejected_cleanly".to_string());
+    }
     if !rt_ok {
         tags.push("roundtrip_changed".to_string());
     }
     (coq, tags)
 }
 
-fn emit(em: &mut Emitter, stream: &'static str, fills: &[F], ik: Ik, restores: &[bool]) {
+fn emit(em: &mut Emitter, stream: &'static str, fills: &[F], ik: Ik, restores: &[bool], rejects: &[u64]) {
     // a panic anywhere in the case (outside the per-fill catch) must not take the harness down:
     // report an empty observation list, which neither corr_b nor prop_b accept
     let fills2 = fills.to_vec();
     let restores2 = restores.to_vec();
-    let (coq, tags) = match catch(move || run_case(&fills2, ik, &restores2)) {
+    let rejects2 = rejects.to_vec();
+    let (coq, tags) = match catch(move || run_case(&fills2, ik, &restores2, &rejects2)) {
         Ok(x) => x,
         Err(msg) => (
             format!(
                 "(CFills {} [] false None {})",
                 list(&fills.iter().map(|f| f.coq()).collect::<Vec<_>>()),
-                ik.coq_meta(restores, false)
+                ik.coq_meta(restores, false, &[], false)
             ),
             vec![format!("panic:{}", msg.chars().take(60).collect::<String>())],
         ),
@@ -448,6 +520,9 @@ fn emit(em: &mut Emitter, stream: &'static str, fills: &[F], ik: Ik, restores: &
             let mut j = f.to_json();
             if restores.get(k).copied().unwrap_or(false) {
                 j["restore_after"] = json!(true);
+            }
+            if rejects.get(k).copied().unwrap_or(0) > 0 {
+                j["foreign_after"] = json!(rejects[k]);
             }
             j
         }).collect::<Vec<_>>(), "instrument": ik.to_json()}),
@@ -554,6 +629,13 @@ fn gen_restores(r: &mut Rng, len: usize) -> Vec<bool> {
     (0..len).map(|_| !none && r.chance(1, 4)).collect()
 }
 
+/// rejected-input points: none in a third of the histories, after ~1 fill in 5 otherwise
+/// (applied only where a position is open)
+fn gen_rejects(r: &mut Rng, len: usize) -> Vec<u64> {
+    let none = r.chance(1, 3);
+    (0..len).map(|_| if !none && r.chance(1, 5) { 1 + r.below(3) } else { 0 }).collect()
+}
+
 fn gen_ik(r: &mut Rng) -> Ik {
     let kind = r.below(4);
     let sizes = [mk_dec(1, 0), mk_dec(1, 3), mk_dec(1, 2), mk_dec(100, 0)];
@@ -612,7 +694,10 @@ fn table(em: &mut Emitter) {
                         case_no += 1;
                         // persist / restore after every prefix in two cases out of three
                         let restores: Vec<bool> = fills.iter().map(|_| case_no % 3 != 0).collect();
-                        emit(em, "table", &fills, ik, &restores);
+                        // a foreign-instrument fill after every fill in half of the cases
+                        let rejects: Vec<u64> =
+                            fills.iter().enumerate().map(|(k, _)| if case_no % 2 == 0 { 1 + ((case_no / 2 + k) % 3) as u64 } else { 0 }).collect();
+                        emit(em, "table", &fills, ik, &restores, &rejects);
                     }
                 }
             }
@@ -637,20 +722,23 @@ fn main() {
                 let fills = gen_history(&mut r, max_len, false);
                 let ik = gen_ik(&mut r);
                 let restores = gen_restores(&mut r, fills.len());
-                emit(&mut em, "random", &fills, ik, &restores);
+                let rejects = gen_rejects(&mut r, fills.len());
+                emit(&mut em, "random", &fills, ik, &restores, &rejects);
             }
             for _ in 0..n_adv {
                 let fills = gen_history(&mut r, max_len, true);
                 let ik = gen_ik(&mut r);
                 let restores = gen_restores(&mut r, fills.len());
-                emit(&mut em, "adversarial", &fills, ik, &restores);
+                let rejects = gen_rejects(&mut r, fills.len());
+                emit(&mut em, "adversarial", &fills, ik, &restores, &rejects);
             }
         }
         "exec" => {
             for (inp, stream) in read_inputs(args.input.as_deref().expect("--in")) {
                 let fills: Vec<F> = inp["fills"].as_array().unwrap().iter().map(F::from_json).collect();
                 let restores: Vec<bool> = inp["fills"].as_array().unwrap().iter().map(|f| f["restore_after"].as_bool().unwrap_or(false)).collect();
-                emit(&mut em, stream_static(&stream), &fills, Ik::from_json(&inp["instrument"]), &restores);
+                let rejects: Vec<u64> = inp["fills"].as_array().unwrap().iter().map(|f| f["foreign_after"].as_u64().unwrap_or(0)).collect();
+                emit(&mut em, stream_static(&stream), &fills, Ik::from_json(&inp["instrument"]), &restores, &rejects);
             }
         }
         m => panic!("unknown mode {m}"),
